@@ -298,10 +298,59 @@ def search(tier="quick", seed=0, stop_at=1):
                 return fails, n
     for b in check_assumptions():
         fails.append({"assumption": b, "violation": b})
+    n += 1
+    for b in early_inspection_case():
+        fails.append({"history": "early-inspection", "violation": b})
     return fails, n
 
 
+def early_inspection_case():
+    """Call history: a class is inspected while its decorators run (its own name - and classes defined further down -
+    are not bound yet), and a different annotation containing it is ordered later.  The later sequence must satisfy the
+    statement: the earlier, necessarily incomplete answer for the class's members must not be reused."""
+    import dataclasses
+    import sys
+    import types
+    import typing
+    from typelib import graph
+    mod = types.ModuleType("c09_early_mod")
+    sys.modules["c09_early_mod"] = mod
+    seen = []
+
+    def registry(cls):
+        with warnings.catch_warnings():
+            warnings.simplefilter("ignore")
+            try:
+                seen.append(list(graph.itertypes(cls)))
+            except Exception:
+                pass
+        return cls
+    mod.registry, mod.dataclasses, mod.typing = registry, dataclasses, typing
+    src = ("@registry\n@dataclasses.dataclass\nclass Category:\n    name: str\n    parent: 'typing.Optional[Category]' = None\n\n"
+           "@registry\n@dataclasses.dataclass\nclass Product:\n    sku: str\n    category: 'Category'\n    tags: 'list[Tag]'\n\n"
+           "@dataclasses.dataclass\nclass Tag:\n    label: str\n")
+    bad = []
+    try:
+        exec(compile(src, "c09_early_mod", "exec"), mod.__dict__)
+        for cls in (mod.Category, mod.Product, mod.Tag):
+            cls.__module__ = "c09_early_mod"
+        for root in (typing.List[mod.Product], typing.Optional[mod.Category], typing.Dict[str, mod.Product]):
+            try:
+                with warnings.catch_warnings():
+                    warnings.simplefilter("ignore")
+                    nodes = with_timeout(lambda: list(graph.itertypes(root)))
+                for b in check_sequence(root, nodes):
+                    bad.append(f"after the class was inspected while being defined, itertypes({root!r}): {b}")
+            except Exception as e:
+                bad.append(f"itertypes({root!r}) raised {type(e).__name__}: {e}")
+    finally:
+        sys.modules.pop("c09_early_mod", None)
+    return bad[:3]
+
+
 def run_recorded(case):
+    if case.get("history") == "early-inspection":
+        return "; ".join(early_inspection_case()) or None
     if "spec" in case:
         return run_case(case["spec"])
     if "annotation" in case:
